@@ -284,7 +284,15 @@ impl FieldValue {
                 )
             }
             FieldDataType::ProtocolType => {
-                let (i, protocol) = ProtocolTypes::parse(remaining)?;
+                // Protocol numbers without a variant (146..=254) are unassigned, not malformed:
+                // report them as Unknown instead of failing the whole record.
+                let (i, protocol) = match ProtocolTypes::parse(remaining) {
+                    Ok((i, protocol)) => (i, protocol),
+                    Err(_) => {
+                        let (i, _) = take(1_usize)(remaining)?;
+                        (i, ProtocolTypes::Unknown)
+                    }
+                };
                 (i, FieldValue::ProtocolType(protocol))
             }
             FieldDataType::Float64 => {
